@@ -28,7 +28,7 @@ ASSUMPTIONS = {
 }
 REQUIRED = {
     "C03": ["reads_compared", "crossing_rejected", "readback_after_reject", "evictions", "bfs_transitions", "prog_runs_compared", "uncounted_reads", "preloaded_histories"],
-    "C09": ["counter_checks", "hits", "misses", "write_miss_no_allocate", "uncounted_reads", "penalty_checks_nonzero", "prog_stats_compared", "bfs_transitions"],
+    "C09": ["counter_checks", "hits", "misses", "write_miss_no_allocate", "uncounted_reads", "penalty_checks_nonzero", "prog_stats_compared", "bfs_transitions", "warm_preloads_on_resident_block"],
     "C12": ["invariant_checks", "wt_resident_written", "wb_dirty_evictions", "bfs_transitions", "crossing_rejected"],
 }
 
@@ -97,8 +97,10 @@ def gen_history(rng, nops, acct):
             op = "r"
         elif k < 0.55:
             op = "ru"
+        elif k < 0.96 or not acct:
+            op = "w" if k < 0.985 else "reset"
         elif k < 0.985:
-            op = "w"
+            op = "p"  # parser-style preload (direct write to lower memory) in the middle of a history
         else:
             op = "reset"  # also in accounting histories: after reset() the sets must behave like fresh ones
         spell = rng.random()
@@ -163,6 +165,7 @@ class HistMonitor:
         self.last_counted = None
         self.unc_between = False
         self.dead = False
+        self.values_off = False
 
     def fail(self, prop, kind, msg, fatal=True, **extra):
         v_case = dict(self.case)
@@ -212,6 +215,26 @@ class HistMonitor:
                 return
             self.readback(where)
             return
+        if op == "p":
+            # "bypass caches and statistics and directly write to lower memory": neither counters nor the
+            # replacement state may change.  If the block is resident the cached copy is (by design) stale from now
+            # on, so values / the C12 invariant are no longer judged in this history - accounting still is.
+            if cross:
+                a -= (a & 3) + w - 4
+            if self.ref.resident(a):
+                self.values_off = True
+                res.count("warm_preloads_on_resident_block")
+            f, T = WR[w]
+            try:
+                f(a, T(v), True)
+            except Exception as e:
+                self.fail("C09", "preload-error", "%s raised %r" % (where, e))
+                return
+            self.flat.write(a & M32, w, v)
+            res.count("warm_preloads")
+            if self.acct:
+                self.counters(where)
+            return
         try:
             if op in ("r", "ru"):
                 counted = op == "r"
@@ -250,7 +273,7 @@ class HistMonitor:
                 res.count("uncounted_reads")
                 if self.last_counted:
                     self.unc_between = True
-            if got != exp:
+            if got != exp and not self.values_off:
                 self.fail("C03", "read-mismatch", "%s returned %#x, flat memory holds %#x" % (where, got, exp))
                 if self.dead:
                     return
@@ -307,6 +330,8 @@ class HistMonitor:
 
     def readback(self, where):
         """whole universe read back (uncounted) must equal the flat memory"""
+        if self.values_off:
+            return
         self.res.count("readback_after_reject")
         for a in self.universe:
             if a & 3 == 0:
@@ -322,6 +347,8 @@ class HistMonitor:
 
     def invariant(self, where):
         """C12, evaluated at the quiescent point after an operation"""
+        if self.values_off:
+            return
         self.res.count("invariant_checks")
         tags, words, dirty = resident_view(self.m)
         back = self.m.memory
@@ -479,6 +506,7 @@ def HistMonitor_init_light(mon, case, res, prop, m, flatb, universe, ref=None):
     mon.last_counted = None
     mon.unc_between = False
     mon.dead = False
+    mon.values_off = False
 
 
 # ------------------------------------------------------------------------------------------- programs
